@@ -9,6 +9,7 @@ import (
 	"net/url"
 	"os"
 	"sync"
+	"time"
 
 	"golang.org/x/sync/errgroup"
 )
@@ -108,3 +109,76 @@ func VerifC09UploadRun(nParts int) {
 }
 
 func vfSyncMapDelete0(m *sync.Map, key any) {}
+
+// ---- Run with real cancellation (context.WithCancel and errgroup.WithContext are the real code) ----
+
+// time.After in terms of the engine's timer model
+func vfTimeAfter(d time.Duration) <-chan time.Time {
+	ch := make(chan time.Time, 1)
+	time.AfterFunc(d, func() { ch <- time.Time{} })
+	return ch
+}
+
+// a part upload attempt that honours cancellation the way the HTTP client does
+func vfUploadPartCtx(b *blobUpload, ctx context.Context, method string, requestURL *url.URL, part *blobUploadPart, opts *registryOptions) error {
+	if ctx.Err() != nil {
+		return context.Canceled
+	}
+	switch verifChoice(3) {
+	case 1:
+		return errors.New("http status 500")
+	case 2:
+		return errMaxRetriesExceeded
+	}
+	vfPartsAccepted++
+	b.nextURL <- requestURL
+	part.Hash = vfMD5{}
+	return nil
+}
+
+func vfCommitRequestCtx(ctx context.Context, method string, requestURL *url.URL, headers http.Header, body io.ReadSeeker, regOpts *registryOptions) (*http.Response, error) {
+	if ctx.Err() != nil {
+		return nil, context.Canceled
+	}
+	vfCommits++
+	if verifChoice(2) == 1 {
+		return nil, errors.New("400: digest mismatch")
+	}
+	vfCommitAccepted = true
+	return &http.Response{StatusCode: 201, Body: vfBody0{}}, nil
+}
+
+// VerifC09UploadRunCancel: as VerifC09UploadRun, and every caller waiting for the upload goes away at a
+// scheduler-chosen moment (the upload's context is cancelled): Run must end - no panic, no goroutine
+// stuck - and must not report the upload as done without error unless the registry accepted it.
+func VerifC09UploadRunCancel(nParts int) {
+	vfCommitAccepted, vfCommits, vfPartsAccepted = false, 0, 0
+	b := &blobUpload{Layer: Layer{Digest: "sha256:aaaaaaaaaaaaaaaaaaaaaaaaaaaaaaaaaaaaaaaaaaaaaaaaaaaaaaaaaaaaaaaa", Size: int64(nParts)}}
+	for i := 0; i < nParts; i++ {
+		b.Parts = append(b.Parts, blobUploadPart{N: i, Offset: int64(i), Size: 1})
+	}
+	b.Total = int64(nParts)
+	b.nextURL = make(chan *url.URL, 1)
+	b.nextURL <- &url.URL{Scheme: "https", Host: "registry.example", Path: "/v2/library/m/blobs/uploads/1"}
+	ctx, cancel := context.WithCancel(context.Background())
+	finished := make(chan struct{})
+	go func() {
+		b.Run(ctx, &registryOptions{})
+		close(finished)
+	}()
+	go func() {
+		verifNote("callers-go-away")
+		cancel()
+	}()
+	<-finished
+	verifReach("run-returned")
+	if b.err == nil {
+		verifReach("upload-reported-ok")
+		verifAssert(b.done, "run-without-error-ends-done")
+		verifAssert(vfPartsAccepted >= nParts, "upload-ok-only-after-every-part-was-accepted")
+		verifAssert(vfCommitAccepted, "upload-ok-only-after-the-registry-accepted-the-commit")
+	}
+	if vfCommits > 0 {
+		verifAssert(vfPartsAccepted >= nParts, "commit-only-after-every-part-was-accepted")
+	}
+}
